@@ -27,14 +27,17 @@ async def _run(loop, sc):
         return T0 + datetime.timedelta(seconds=loop.time())
     orig_now = core_dt.utc_now
     core_dt.utc_now = fake_now
-    orig_push_events = core_disp.RealtimeDispatcher._push_events
+    # iteration boundaries are observed by wrapping an internal method; without it the scenario still runs and is
+    # monitored through handlers and jobs, only the per-iteration comparison with the model is not possible
+    orig_push_events = getattr(core_disp.RealtimeDispatcher, "_push_events", None)
 
     async def push_events(self, dt):
         if len(log) > 200000:
             raise RuntimeError("runaway scenario: the virtual clock does not advance")
         log.append(("iter", ms(dt)))
         return await orig_push_events(self, dt)
-    core_disp.RealtimeDispatcher._push_events = push_events
+    if orig_push_events is not None:
+        core_disp.RealtimeDispatcher._push_events = push_events
     outcome = "returned"
     try:
         d = bs.realtime_dispatcher(max_concurrent=sc["mc"])
@@ -148,7 +151,8 @@ async def _run(loop, sc):
             st.cancel()
     finally:
         core_dt.utc_now = orig_now
-        core_disp.RealtimeDispatcher._push_events = orig_push_events
+        if orig_push_events is not None:
+            core_disp.RealtimeDispatcher._push_events = orig_push_events
     return log, outcome
 
 
